@@ -70,6 +70,13 @@ type Prop struct {
 	Sigs map[string]func(c Case, realOut []string, msg string) bool
 	// Shrink proposes smaller variants of a case (may be nil).
 	Shrink func(c Case) []Case
+	// Match decides whether the twin's answer admits the implementation's answer for a line
+	// (nil = string equality).  For lines whose real outcome is legitimately non-deterministic the
+	// twin answers with the set of outcomes and Match checks membership.
+	Match func(line, realOut, twinOut string) bool
+	// Reset, when non-empty, is sent to the twin before every case (answer ignored): stateful twins
+	// must not carry state into a case whose own init line was shrunk away.
+	Reset string
 	// Subprocess: run the real executor in recycled child processes (see subproc.go);
 	// GenInWorker: the generator needs the real system too and also runs there.
 	Subprocess  bool
@@ -183,6 +190,9 @@ func runCase(p *Prop, o *oracle.O, c Case) outcome {
 	out := outcome{c: c, disLine: -1}
 	r := p.NewReal()
 	defer r.Close()
+	if o != nil && p.Reset != "" {
+		_, _ = o.Ask(p.Reset)
+	}
 	for i, ln := range c.Script {
 		var ro string
 		twinLine := ln
@@ -198,7 +208,11 @@ func runCase(p *Prop, o *oracle.O, c Case) outcome {
 				to = "oracle-error " + err.Error()
 			}
 			out.twin = append(out.twin, to)
-			if to != ro && out.disLine < 0 {
+			same := to == ro
+			if !same && p.Match != nil && !strings.HasPrefix(to, "oracle-error") {
+				same = p.Match(ln, ro, to)
+			}
+			if !same && out.disLine < 0 {
 				out.disLine = i
 			}
 		} else {
@@ -481,12 +495,16 @@ func Run(p *Prop, opts Opts) (*Result, error) {
 				return false
 			})
 			o2 := runCase(p, so, min)
-			msg := unknownMon
+			msg := ""
 			for _, m := range o2.mon {
 				if attribute(min, o2.real, m) == "" {
 					msg = m
 					break
 				}
+			}
+			if msg == "" {
+				// the failure does not reproduce on a re-run (timing-dependent): report the original observation
+				msg, min, o2 = unknownMon, oc.c, oc
 			}
 			f := Failure{Kind: "monitor", Msg: msg, Case: min, RealOut: o2.real, TwinOut: o2.twin}
 			writeReplay(&f)
